@@ -5,7 +5,7 @@ from typing import List, Optional, Tuple
 
 from .. import normal, consteval, pipeline, render, sym
 from ..model import AnalysisError, Repo
-from ..report import Run
+from ..report import Run, take_over
 from ..sym import T, const, param
 
 EXPLANATION = (
@@ -151,28 +151,13 @@ def request_isolation(repo: Repo, run: Run) -> None:
     run.floor("R0", "table-reset obligations taken over from C02", n, 3)
 
 
-def _take_over(run, mod_name: str, prop: str, repo, select, rule: str, label: str, why: str, floor: int) -> None:
-    """Obligations of another check that are necessary conditions here as well (judged there, reported here too)."""
-    import importlib
-    from ..model import AnalysisError as _AE
-    other = importlib.import_module(f"vstatic.rules.{mod_name}")
-    probe = Run(prop, run.tier, run.repo_root)
-    probe.is_probe = True           # (a check run for its obligations only: it does not take over from others in turn)
-    try:
-        other.check(repo, probe)
-    except _AE:
-        pass            # the floor below fails if the obligations were not reached
-    n = 0
-    for o in probe.obligations:
-        if select(o):
-            n += 1
-            run.ob(rule, o["module"], o["scope"], f"{label} ({prop}/{o['rule']}): {o['construct']}", o["ok"],
-                   (o.get("what", "") + " - " + why) if not o["ok"] else "", nontrivial=False)
-    run.floor(rule, f"{label}: obligations taken over from {prop}", n, floor)
 
 
 def check(repo: Repo, run: Run) -> None:
-    _take_over(run, "c14", "C14", repo, lambda o: o["rule"] == "R4" and o["construct"].startswith("writer of the thread/process tables"), "R0",
+    take_over(run, "c08", "C08", repo, lambda o: o["rule"] == "R6", "R0", "decoders do not count records of other classes",
+              "the records of classes that were not requested are not in the window of a filtered run: the same call then "
+              "renders differently with and without the filter", 1)
+    take_over(run, "c14", "C14", repo, lambda o: o["rule"] == "R4" and o["construct"].startswith("writer of the thread/process tables"), "R0",
                "table writers", "a decoder outside the classes every request reads (trace strings, and file-system lookups with "
                "BSD) that writes the shared thread/process tables makes the process filter and the rendered text depend on "
                "which classes were requested", 6)
